@@ -157,6 +157,10 @@ pub fn gen_case(rng: &mut Rng, profile: &str, size: usize) -> Case {
         }
     }
     let weighted = wm != WeightMode::Unweighted && rng.chance(75);
+    // hop-count mode must ignore the stored weights altogether: some of them negative
+    if !weighted && rng.chance(30) {
+        for e in g.edges.iter_mut() { if let Some(w) = e.2 { if rng.chance(40) { e.2 = Some(-w - 1); } } }
+    }
     let absent = 99u32;
     let target = if rng.chance(if big { 30 } else { 45 }) { if rng.chance(8) { Some(absent) } else if g.nodes.is_empty() { None } else { Some(*rng.pick(&g.nodes)) } } else { None };
     // (twice the) cutoff: around the distances that occur - small graphs have distances up to ~6, the sparse graphs of the
